@@ -142,6 +142,8 @@ pub fn cases(rng: &mut Rng, thorough: bool) -> Vec<SchedCase> {
             mk_bin("or", mk_bin("lt", reff("x"), lit(Value::Int(2))), call("nofn", arg(0))),
             iff(mk_bin("lt", reff("x"), lit(Value::Int(2))), reff("nofield"), call("g", arg(1))),
         ],
+        // many rules: 60 calls over 7 distinct arguments, every third one to the failing function
+        (0..60).map(|i| if i % 3 == 2 { call("boom", arg((i % 7) as i128)) } else { call(if i % 2 == 0 { "g" } else { "h" }, arg((i % 7) as i128)) }).collect(),
         // a cacheable call completed before a suspending one (what a dropped evaluation may leave behind)
         vec![call("g", arg(0)), call("h", arg(1)), call("g", arg(0)), call("h", arg(2))],
     ];
@@ -170,7 +172,7 @@ pub fn run(rep: &mut Report, driver: &str, workers: usize, thorough: bool, seed:
     let model = par_batch(driver, workers, &reqs);
     let mut sr = StreamReport::new(
         "poll-schedules",
-        "7 rulesets (cached / uncached / failing user functions, lazy and strict operators, references missing only on the branch one input takes, a cacheable call completed before a suspending one) x suspension patterns (each user-function call returns Pending 0..3 times) x cacheability; two evaluations of ONE shared RuleSet on different inputs polled by a hand-rolled executor (no-op waker) under EVERY interleaving of their polls (up to 924 schedules per case; larger cases: 400 sampled), every abandonment point of one evaluation (dropped after j polls) followed by a fresh evaluation — with a second evaluation in flight, and alone followed by four fresh evaluations —, every sequence of three completed evaluations over the two inputs, and 3 consecutive evaluations; compared per evaluation: outcomes and the order of its own user-function invocations, against the model's sequential result",
+        "8 rulesets (one of them with 60 rules; cached / uncached / failing user functions, lazy and strict operators, references missing only on the branch one input takes, a cacheable call completed before a suspending one) x suspension patterns (each user-function call returns Pending 0..3 times) x cacheability; two evaluations of ONE shared RuleSet on different inputs polled by a hand-rolled executor (no-op waker) under EVERY interleaving of their polls (up to 924 schedules per case; larger cases: 400 sampled), every abandonment point of one evaluation (dropped after j polls) followed by a fresh evaluation — with a second evaluation in flight, and alone followed by four fresh evaluations —, every sequence of three completed evaluations over the two inputs, and 3 consecutive evaluations; compared per evaluation: outcomes and the order of its own user-function invocations, against the model's sequential result",
         false,
     );
     let max_sched = if thorough { 924 } else { 300 };
